@@ -59,7 +59,7 @@ def asym_occupancy(log):
 class Check(DiffCheck):
     id = 'C05'
     coq_dirs = ['Base', 'E3', 'C05']
-    coq_targets = ['C05/C05_AsymProofs.vo', 'C05/C05_Proofs.vo']
+    coq_targets = ['C05/C05_AsymProofs.vo', 'C05/C05_Proofs.vo', 'C05/C05_Proofs2.vo']
     properties_v = 'C05/C05_Properties.v'
     extract_v = 'C05/C05_Extract.v'
     runner_ml = 'ocaml/C05_run.ml'
@@ -78,15 +78,23 @@ class Check(DiffCheck):
 
     # ---------------------------------------------------------------- build
     def build_impl(self):
-        e2, log = cxx_build(self.id, ['harness/E2/e2_main.cpp', 'harness/E2/ops_core.cpp', 'harness/C05/ops_c05.cpp'],
-                            libphoton=True, out=os.path.join(BUILD, 'bin', 'C05_e2'))
-        if not e2: raise RuntimeError(log[-3000:])
-        a3, log = cxx_build(self.id, ['harness/C05/asym_e3.cpp'], extra='-I%s' % REPO, libphoton=True, out=os.path.join(BUILD, 'bin', 'C05_asym'))
-        if not a3: raise RuntimeError(log[-3000:])
-        self.litmus, log = cxx_build(self.id, ['harness/C05/litmus.cpp'], extra='-O2 -I%s' % REPO, libphoton=True, out=os.path.join(BUILD, 'bin', 'C05_litmus'))
-        if not self.litmus: raise RuntimeError(log[-3000:])
-        self.stress, log = cxx_build(self.id, ['harness/C05/stress.cpp'], extra='-O2', libphoton=True, out=os.path.join(BUILD, 'bin', 'C05_stress'))
-        if not self.stress: raise RuntimeError(log[-3000:])
+        import concurrent.futures as cf
+        jobs = {
+            'e2': (['harness/E2/e2_main.cpp', 'harness/E2/ops_core.cpp', 'harness/C05/ops_c05.cpp'], '-I%s' % os.path.join(VERIF, 'harness', 'E2'), 'C05_e2'),
+            'a3': (['harness/C05/asym_e3.cpp'], '-I%s' % REPO, 'C05_asym'),
+            'litmus': (['harness/C05/litmus.cpp'], '-O2 -I%s' % REPO, 'C05_litmus'),
+            'stress': (['harness/C05/stress.cpp'], '-O2', 'C05_stress'),
+        }
+        photon_lib()                                    # build the hook-enabled library once, before the parallel compiles
+        res = {}
+        with cf.ThreadPoolExecutor(max_workers=4) as ex:
+            futs = {k: ex.submit(cxx_build, self.id, src, extra, False, True, os.path.join(BUILD, 'bin', out)) for k, (src, extra, out) in jobs.items()}
+            for k, f in futs.items():
+                exe, log = f.result()
+                if not exe: raise RuntimeError('%s: %s' % (k, log[-3000:]))
+                res[k] = exe
+        e2, a3 = res['e2'], res['a3']
+        self.litmus, self.stress = res['litmus'], res['stress']
         # dispatcher: P lines -> E2 harness, A lines -> E3 harness; one output line per input line, in order
         wrap = os.path.join(BUILD, 'bin', 'C05_impl')
         with open(wrap, 'w') as f:
@@ -167,14 +175,14 @@ while i < len(lines):
         if os.path.exists(cp):
             cs += [l.strip() for l in open(cp) if l.strip() and not l.startswith('#')]
         # --- A: asymmetric lock schedules.  2 participants, 1 round: every schedule prefix of length <= L
-        L = 9 if tier == 'quick' else 12
+        L = 8 if tier == 'quick' else 12
         for ln in range(0, L + 1):
             for sch in itertools.product('01', repeat=ln):
                 cs.append('A 2 1 200 ' + ''.join(sch))
-        for ln in range(0, 7 if tier == 'quick' else 8):
+        for ln in range(0, 6 if tier == 'quick' else 8):
             for sch in itertools.product('012', repeat=ln):
                 cs.append('A 3 1 300 ' + ''.join(sch))
-        for _ in range(600 if tier == 'quick' else 6000):
+        for _ in range(400 if tier == 'quick' else 6000):
             n = rng.randrange(2, 5); rounds = rng.randrange(1, 4)
             ln = rng.randrange(0, 40)
             # bursts: a participant runs a few steps in a row (windows a few instructions wide)
@@ -195,7 +203,7 @@ while i < len(lines):
             'P - | create 1 0;join 1;yield;released 1 | -',
         ]
         cs += hand
-        nprog = 900 if tier == 'quick' else 12000
+        nprog = 500 if tier == 'quick' else 12000
         cand = [self._rand_prog(rng) for _ in range(nprog)]
         cs += self._drop_ties(cand)
         return list(dict.fromkeys(cs))
